@@ -26,6 +26,28 @@ model deliberately gives a default (a read of such a variable while unbound woul
 Python; the linking theorem's hand model must guard it).
 A read of an `option` variable where its content is needed is a checked unwrap (Err 99 = TypeError on None).
 Every variable's type is declared in cfg["vars"]; an undeclared variable is refused.
+
+Object attributes (cfg["fields"] = {attr: (owner type, field type, getter template over {obj}, setter template over
+{obj} {val})}): an object held in a variable is a VALUE of its declared owner type;
+  e.attr            (e of the owner type)          the getter applied to e
+  x.attr = e        (x a bound variable)           let x := setter x e          (the object is rebound, as for x = ...)
+  x.attr.append(e)  (the field a list)             let x := setter x (getter x ++ [e])
+so a method that mutates `self` denotes the new value of self (cfg["implicit_return"] = "{self}").  Aliasing is NOT
+modelled: the configuration's author must check that no second reference to a mutated object is read afterwards.
+An attribute that is not declared, or an owner of another type, is refused.
+`x: T = e` inside a function body is `x = e` (annotations of local / attribute targets are not evaluated there).
+
+`with E as x: body` where E matches cfg["contexts"] (pattern -> (Gallina template, type), as for prims) is `x = E; body`:
+the configuration TRUSTS that __enter__ returns the value the template denotes and that __exit__ does not change any
+value the function goes on to use (closing a file that was read).  Any other `with` is refused.
+
+Statement-run primitives (cfg["stmt_prims"] = [(source text of CONSECUTIVE statements with holes __x, target variable,
+Gallina template over the holes, type, optional hole types)]): a run of statements that matches the text exactly (up
+to the holes) is replaced by `target = <template>`; it is the statement-level analogue of a prim, for library plumbing
+whose net effect on one variable is the trusted meaning (e.g. "read an HDF5 group into a dict").  Every other variable
+the run assigns is UNBOUND afterwards (a later read is refused), every non-hole name the run reads and does not itself
+assign must be bound where the run stands (or be listed in cfg["globals"]), and a changed statement no longer matches,
+so the run then meets the ordinary translation and is refused if outside the fragment.
 """
 import ast
 
@@ -112,9 +134,18 @@ class Tr:
         self.effects = [(pat(p), var, tmpl) for p, var, tmpl in cfg.get("effects", [])]
         self.effect_calls = [(pat(p), var, st_t, val_t, parse_type(ty)) for p, var, st_t, val_t, ty in cfg.get("effect_calls", [])]
         self.eqb = cfg.get("eqb", {})
+        # object attributes: {attr: (owner type, field type, getter template, setter template)}
+        self.fields = {a: (parse_type(o), parse_type(t), g, st) for a, (o, t, g, st) in cfg.get("fields", {}).items()}
         self.raises = list(cfg.get("raises", []))  # [(substring of unparse(raise stmt), tag)]
         self.fresh = 0
         self.ret_type = parse_type(cfg["returns"])
+        self.contexts = [(pat(x[0]), x[1], parse_type(x[2]), {h: parse_type(t) for h, t in (x[3] if len(x) > 3 else {}).items()})
+                         for x in cfg.get("contexts", [])]
+        # statement-run primitives: (pattern statements, target, template, type, hole types)
+        self.stmt_prims = [(Rename().visit(ast.parse(x[0])).body, rn(x[1]), x[2], parse_type(x[3]),
+                            {h: parse_type(t) for h, t in (x[4] if len(x) > 4 else {}).items()})
+                           for x in cfg.get("stmt_prims", [])]
+        self.globals = set(rn(g) for g in cfg.get("globals", []))
         # the exception monad: by default Lib/Sexp.result with integer tags; a configuration may name another one
         # (type constructor, bind notation keyword, unit, fold, checked unwrap) whose errors carry data
         m = dict(type="result", bind="dor", ok="Ok", fold="res_fold", unwrap="unwrap")
@@ -168,6 +199,27 @@ class Tr:
                     hoist.append((n, tmpl[1:].format(**args)))
                     return n, ty
                 return "(" + tmpl.format(**args) + ")", ty
+        if isinstance(e, ast.Call) and isinstance(e.func, ast.Name) and e.func.id.startswith("STMTPRIM:"):
+            _, _, tmpl, ty, argtys = self.stmt_prims[int(e.func.id[len("STMTPRIM:"):])]
+            for kw in e.keywords:
+                if kw.arg is None and isinstance(kw.value.ctx, ast.Load):     # a name the run reads: it must be bound here
+                    if env.get(kw.value.id, ("unit",)) == ("unit",):
+                        raise Unsupported("statement run reads a variable that is not bound here: " + kw.value.id)
+                elif kw.arg is None:     # a name the run assigns besides its target: it must not be live (it would go stale)
+                    if env.get(kw.value.id, ("unit",)) != ("unit",):
+                        raise Unsupported("statement run re-assigns a bound variable it does not model: " + kw.value.id)
+            args = {}
+            for kw in e.keywords:
+                if kw.arg is not None:
+                    a, at = self.expr(kw.value, env, hoist)
+                    args[kw.arg] = self.need(a, at, argtys[kw.arg], hoist) if kw.arg in argtys else a
+            return "(" + tmpl.format(**args) + ")", ty
+        if isinstance(e, ast.Attribute) and e.attr in self.fields:
+            owner, fty, getter, _ = self.fields[e.attr]
+            o, ot = self.expr(e.value, env, hoist)
+            if ot != owner:
+                raise Unsupported("attribute %s of a %s (declared for %s)" % (e.attr, ot, owner))
+            return "(" + getter.format(obj=o) + ")", fty
         if isinstance(e, ast.Name) and e.id.startswith("MATCHCLASS:"):
             return "(" + e.id[len("MATCHCLASS:"):] + ")", ("bool",)
         if isinstance(e, ast.Name):
@@ -333,6 +385,9 @@ class Tr:
                 continue
             if isinstance(st, ast.Assign):
                 for t in st.targets:
+                    if self.field_target(t) is not None:      # x.attr = e rebinds x
+                        add(self.field_target(t))
+                        continue
                     for n in ([t] if isinstance(t, ast.Name) else t.elts if isinstance(t, ast.Tuple) else []):
                         if isinstance(n, ast.Name):
                             add(n.id)
@@ -351,6 +406,8 @@ class Tr:
                 eff = self.effect_of(st.value)
                 if eff:
                     add(eff[0])
+                elif self.field_append(st.value) is not None:     # x.attr.append(e) rebinds x
+                    add(self.field_append(st.value)[0])
                 elif isinstance(st.value, ast.Call) and isinstance(st.value.func, ast.Attribute) \
                         and st.value.func.attr in ("append", "add") and isinstance(st.value.func.value, ast.Name):
                     add(st.value.func.value.id)
@@ -367,6 +424,9 @@ class Tr:
                     raise Unsupported("for/else")
             elif isinstance(st, (ast.Continue, ast.Raise, ast.Return)):
                 pass
+            elif isinstance(st, ast.With):
+                for n in [self.with_item(st)[0]] + self.assigned(st.body):
+                    add(n)
             elif isinstance(st, ast.Match):
                 for c in st.cases:
                     for n in self.assigned(c.body):
@@ -402,6 +462,8 @@ class Tr:
             if isinstance(st, kinds):
                 return True
             if isinstance(st, ast.If) and (self.has_jump(st.body, kinds) or self.has_jump(st.orelse, kinds)):
+                return True
+            if isinstance(st, ast.With) and self.has_jump(st.body, kinds):
                 return True
             if isinstance(st, ast.For):
                 inner = tuple(k for k in kinds if k is not ast.Continue)
@@ -455,6 +517,8 @@ class Tr:
                     txt = "%slet %s : %s := %s in\n%slet %s := %s in\n" % (
                         ind, tgt.id, coq_type(vty), val_t.format(**args), ind, var, st_t.format(**args))
                     return self.bind_hoist(hoist, txt, ind) + self.block(rest, env2, k, ind)
+            if self.field_target(tgt) is not None:
+                return self.field_store(tgt.value.id, tgt.attr, st.value, False, env, hoist, rest, k, ind)
             if isinstance(tgt, ast.Name):
                 ty = self.var_type(tgt.id)
                 v, vt = self.expr(st.value, env, hoist)
@@ -497,6 +561,9 @@ class Tr:
                     return self.bind_hoist(hoist, "%s%s %s <- %s;\n" % (ind, self.M["bind"], var, tmpl[1:].format(**args)), ind) + self.block(rest, env, k, ind)
                 return self.bind_hoist(hoist, "%slet %s := %s in\n" % (ind, var, tmpl.format(**args)), ind) + self.block(rest, env, k, ind)
             c = st.value
+            if self.field_append(c) is not None:
+                x, attr, arg = self.field_append(c)
+                return self.field_store(x, attr, arg, True, env, hoist, rest, k, ind)
             n = c.func.value.id
             if n not in env or len(c.args) != 1 or c.keywords:
                 raise Unsupported("method call: " + ast.unparse(st))
@@ -544,7 +611,88 @@ class Tr:
             return self.loop(st, rest, env, k, ind)
         if isinstance(st, ast.Match):
             return self.block([self.match_to_if(st)] + rest, env, k, ind)
+        if isinstance(st, ast.With):
+            x, ctx = self.with_item(st)
+            if self.has_jump(st.body, (ast.Continue, ast.Return)):
+                raise Unsupported("continue/return inside a with block")
+            tmpl, ty, binds, argtys = ctx
+            if self.var_type(x) != ty:
+                raise Unsupported("with target %s declared %s, context gives %s" % (x, self.var_type(x), ty))
+            args = {}
+            for kk, v in binds.items():
+                a, at = self.expr(v, env, hoist)
+                args[kk[2:]] = self.need(a, at, argtys[kk[2:]], hoist) if kk[2:] in argtys else a
+            env2 = dict(env)
+            env2[x] = ty
+            txt = "%slet %s : %s := %s in\n" % (ind, x, coq_type(ty), tmpl.format(**args))
+            return self.bind_hoist(hoist, txt, ind) + self.block(list(st.body) + rest, env2, k, ind)
         raise Unsupported("statement: " + ast.unparse(st)[:80])
+
+    # ---- with blocks (cfg["contexts"]) and statement-run primitives (cfg["stmt_prims"])
+    def with_item(self, st):
+        """`with E as x:` with E a declared context -> (x, (template, type, hole bindings, hole types))"""
+        if len(st.items) != 1 or not isinstance(st.items[0].optional_vars, ast.Name):
+            raise Unsupported("with statement other than `with E as x`: " + ast.unparse(st)[:80])
+        for pat, tmpl, ty, argtys in self.contexts:
+            binds = {}
+            if self.unify(pat, st.items[0].context_expr, binds):
+                return st.items[0].optional_vars.id, (tmpl, ty, binds, argtys)
+        raise Unsupported("with over an undeclared context: " + ast.unparse(st.items[0].context_expr))
+
+    def rewrite_runs(self, stmts):
+        """replace, in place and recursively, every run of statements matching a cfg["stmt_prims"] pattern by
+        `target = STMTPRIM:i(hole=..., **read names)`"""
+        j = 0
+        while j < len(stmts):
+            for i, (pats, target, _, _, _) in enumerate(self.stmt_prims):
+                binds = {}
+                if j + len(pats) <= len(stmts) and all(self.unify(p, q, binds) for p, q in zip(pats, stmts[j:j + len(pats)])):
+                    stored = set(n.id for p in pats for n in ast.walk(p) if isinstance(n, ast.Name) and isinstance(n.ctx, ast.Store))
+                    reads = list(dict.fromkeys(
+                        n.id for p in pats for n in ast.walk(p)
+                        if isinstance(n, ast.Name) and isinstance(n.ctx, ast.Load) and not n.id.startswith("__")
+                        and n.id not in stored and n.id not in self.globals))
+                    call = ast.Call(func=ast.Name(id="STMTPRIM:%d" % i, ctx=ast.Load()), args=[],
+                                    keywords=[ast.keyword(arg=h[2:], value=v) for h, v in binds.items()]
+                                    + [ast.keyword(arg=None, value=ast.Name(id=r, ctx=ast.Load())) for r in reads]
+                                    + [ast.keyword(arg=None, value=ast.Name(id=r, ctx=ast.Store())) for r in sorted(stored - {target})])
+                    new = ast.Assign(targets=[ast.Name(id=target, ctx=ast.Store())], value=call)
+                    stmts[j:j + len(pats)] = [ast.copy_location(new, stmts[j])]
+                    break
+            st = stmts[j]
+            for field in ("body", "orelse"):
+                if isinstance(getattr(st, field, None), list) and not isinstance(st, ast.Match):
+                    self.rewrite_runs(getattr(st, field))
+            j += 1
+
+    # ---- object attributes (cfg["fields"])
+    def field_target(self, t):
+        """x.attr with attr declared and x a plain variable -> the variable's name, else None"""
+        if isinstance(t, ast.Attribute) and t.attr in self.fields and isinstance(t.value, ast.Name):
+            return t.value.id
+        return None
+
+    def field_append(self, call):
+        """x.attr.append(e) -> (x, attr, e), else None"""
+        if isinstance(call, ast.Call) and isinstance(call.func, ast.Attribute) and call.func.attr == "append" \
+                and len(call.args) == 1 and not call.keywords and self.field_target(call.func.value) is not None:
+            return call.func.value.value.id, call.func.value.attr, call.args[0]
+        return None
+
+    def field_store(self, x, attr, value, append, env, hoist, rest, k, ind):
+        """x.attr = value  /  x.attr.append(value): the variable x is rebound to the updated object"""
+        owner, fty, getter, setter = self.fields[attr]
+        if env.get(x) != owner:
+            raise Unsupported("store to attribute %s of %s, which is not a bound %s" % (attr, x, owner))
+        v, vt = self.expr(value, env, hoist)
+        if append:
+            if fty[0] != "list":
+                raise Unsupported("append to a field that is not a list: " + attr)
+            v = "(%s ++ [%s])" % (getter.format(obj=x), self.need(v, vt, fty[1], hoist))
+        else:
+            v = self.need(v, vt, fty, hoist)
+        txt = "%slet %s : %s := %s in\n" % (ind, x, coq_type(owner), setter.format(obj=x, val=v))
+        return self.bind_hoist(hoist, txt, ind) + self.block(rest, env, k, ind)
 
     def match_to_if(self, st):
         """match <subject>: case C1(): ... case C2(): ... case other: ...   ->   if/elif/else on the class tests
@@ -695,6 +843,7 @@ class Tr:
                 return "%s  %s %s\n" % (ind, self.M["ok"], cfg["implicit_return"].format(**{v[:-len(SUFFIX)]: v for v in env2 if v.endswith(SUFFIX)}))
             raise Unsupported("function may end without a return" if jump is None else "continue outside a loop")
 
+        self.rewrite_runs(f.body)
         body = self.block(list(f.body), env, kfun, ind)
         return "Definition %s %s : %s %s :=\n%s%s." % (cfg["name"], " ".join(params), self.M["type"], coq_type(self.ret_type), pre, body.rstrip("\n"))
 
@@ -756,9 +905,20 @@ class AttrVars(ast.NodeTransformer):
         return node
 
 
+class AnnToAssign(ast.NodeTransformer):
+    """`x: T = e` in a function body is `x = e`: the annotation of a local or attribute target is not evaluated there.
+    A bare declaration `x: T` is left alone (and refused as an unsupported statement)."""
+
+    def visit_AnnAssign(self, node):
+        if node.value is None:
+            return node
+        return ast.copy_location(ast.Assign(targets=[node.target], value=node.value), node)
+
+
 def translate(source_text, cfg):
     tree = ast.parse(source_text)
     f = find_function(tree, cfg["func"], cfg.get("cls"))
+    f = AnnToAssign().visit(f)
     if cfg.get("attr_vars"):
         f = AttrVars(cfg["attr_vars"]).visit(f)
     f = Rename().visit(f)
